@@ -4,11 +4,12 @@ key is sender / recipient, info), the `seal_id == open_id` refusals, and the rol
 `UniChannel` construction of `Handler::uni_channel_created` / `uni_channel_received`."""
 import re
 from extract import read, strip_comments, Fail
-from crypto_c34 import lean_bytes, fn_body
+from crypto_c34 import lean_bytes, fn_body, advisory, advisory_comment, lean_bool, ADVISORY
 from crypto_c37 import struct_fields, width
 
 
 def gen():
+    n0 = len(ADVISORY)
     L = ["namespace AranyaV.Gen.C38", ""]
     rel = "crates/aranya-crypto/src/afc/uni.rs"
     src = strip_comments(read(rel))
@@ -40,40 +41,43 @@ def gen():
     s = re.sub(r"\s+", "", src)
     same = "ifch.seal_id==ch.open_id{returnErr(Error::same_device_id());}"
     if s.count(same) < 3:
-        raise Fail(f"{rel}: the `seal_id == open_id` refusal is missing from UniSecrets::new / from_author_secret / from_peer_encap")
+        advisory(f"{rel}: the literal `seal_id == open_id` refusal was not found three times (UniSecrets::new / from_author_secret / from_peer_encap)")
     nb = re.sub(r"\s+", "", fn_body(src, "new", rel))
     if "hpke::setup_send_deterministically::<CS>(Mode::Auth(&author_sk.sk),&peer_pk.pk,[ch.info().as_bytes()],root_sk.clone().into_inner(),)?" not in nb \
             or "letauthor_sk=ch.our_sk;letpeer_pk=ch.their_pk;" not in nb:
-        raise Fail(f"{rel}: UniSecrets::new changed shape")
+        advisory(f"{rel}: UniSecrets::new is not literally setup_send_deterministically(Auth(our_sk), their_pk, [info], root)")
     ab = re.sub(r"\s+", "", fn_body(src, "from_author_secret", rel))
     if "hpke::setup_send_deterministically::<CS>(Mode::Auth(&author_sk.sk),&peer_pk.pk,[ch.info().as_bytes()],secret.sk.into_inner(),)?" not in ab \
             or "letauthor_sk=ch.our_sk;letpeer_pk=ch.their_pk;" not in ab:
-        raise Fail(f"{rel}: from_author_secret changed shape")
+        advisory(f"{rel}: from_author_secret is not literally setup_send_deterministically(Auth(our_sk), their_pk, [info], secret)")
     pb = re.sub(r"\s+", "", fn_body(src, "from_peer_encap", rel))
     if "hpke::setup_recv::<CS>(Mode::Auth(&author_pk.pk),enc.as_inner(),&peer_sk.sk,[ch.info().as_bytes()],)?" not in pb \
             or "letpeer_sk=ch.our_sk;letauthor_pk=ch.their_pk;" not in pb:
-        raise Fail(f"{rel}: from_peer_encap changed shape")
+        advisory(f"{rel}: from_peer_encap is not literally setup_recv(Auth(their_pk), enc, our_sk, [info])")
+    uni_ok = len(ADVISORY) == n0
     L += ["/-- `UniSecrets::new` / `from_author_secret` = HPKE auth `setup_send_deterministically(skS = our_sk,",
           "pkR = their_pk, info = Info, skE = root secret)`; `from_peer_encap` = `setup_recv(pkS = their_pk, enc,",
-          "skR = our_sk, info = Info)`; all three refuse `seal_id == open_id` (checked against " + rel + ") -/",
-          "def uniShape : Bool := true", ""]
+          "skR = our_sk, info = Info)`; all three refuse `seal_id == open_id` (advisory literal comparison with " + rel + ";",
+          "the harness decides the behaviour) -/",
+          f"def uniShape : Bool := {lean_bool(uni_ok)}", ""]
+    n_h = len(ADVISORY)
     # ---- handler
     rel = "crates/aranya-afc-util/src/handler.rs"
     src = strip_comments(read(rel))
     cb = re.sub(r"\s+", "", fn_body(src, "uni_channel_created", rel))
     rb = re.sub(r"\s+", "", fn_body(src, "uni_channel_received", rel))
     if not cb.startswith("{ifself.device_id==effect.open_id{returnErr(Error::AuthorMustBeSealer);}"):
-        raise Fail(f"{rel}: uni_channel_created no longer starts with the `device_id == open_id` refusal")
+        advisory(f"{rel}: uni_channel_created does not literally start with the `device_id == open_id` refusal")
     if not rb.startswith("{ifeffect.seal_id==self.device_id{returnErr(Error::AuthorMustBeSealer);}"):
-        raise Fail(f"{rel}: uni_channel_received no longer starts with the `seal_id == device_id` refusal")
+        advisory(f"{rel}: uni_channel_received does not literally start with the `seal_id == device_id` refusal")
     if "letch=UniChannel{parent_cmd_id:effect.parent_cmd_id,seal_id:self.device_id,open_id:effect.open_id,our_sk,their_pk,label_id:effect.label_id,};UniKey::new(&ch,secret,UniKey::SealOnly)" not in cb:
-        raise Fail(f"{rel}: uni_channel_created: UniChannel construction / SealOnly changed")
+        advisory(f"{rel}: uni_channel_created: literal UniChannel construction / SealOnly not found")
     if "letch=UniChannel{parent_cmd_id:effect.parent_cmd_id,seal_id:effect.seal_id,open_id:self.device_id,our_sk,their_pk,label_id:effect.label_id,};UniKey::new(&ch,encap,UniKey::OpenOnly)" not in rb:
-        raise Fail(f"{rel}: uni_channel_received: UniChannel construction / OpenOnly changed")
+        advisory(f"{rel}: uni_channel_received: literal UniChannel construction / OpenOnly not found")
     L += ["/-- `Handler::uni_channel_created`: refuse `device == open_id`, channel with `seal_id := device`, SealOnly;",
           "`uni_channel_received`: refuse `seal_id == device`, channel with `open_id := device`, OpenOnly",
-          "(checked against " + rel + ") -/",
-          "def handlerShape : Bool := true", "", "end AranyaV.Gen.C38"]
+          "(advisory literal comparison with " + rel + "; the harness drives the real Handler in both roles) -/",
+          f"def handlerShape : Bool := {lean_bool(len(ADVISORY) == n_h)}", ""] + advisory_comment(n0) + ["", "end AranyaV.Gen.C38"]
     return "\n".join(L) + "\n"
 
 
